@@ -2,6 +2,7 @@
 
 pub mod c06;
 pub mod c16;
+pub mod crashprops;
 
 use crate::seq::{self, Suite};
 use crate::suites;
@@ -104,6 +105,26 @@ pub fn run_check(prop: &str, tier: &str) -> i32 {
         "C01" => {
             let s = suites::all_suites(thorough);
             seq_check(prop, tier, s, &["C01"], budget, &mut report);
+        }
+        "C02" => {
+            let s = suites::crash_suites(thorough);
+            let plan = crashprops::CrashPlan { nest: 0, reopen_cycles: 0, sector_tear: true, layout: false };
+            crashprops::crash_check(prop, s, &["C02", "C11"], plan, budget, &mut report);
+        }
+        "C03" => {
+            let s = suites::crash_suites(thorough);
+            let plan = crashprops::CrashPlan { nest: 0, reopen_cycles: 0, sector_tear: true, layout: false };
+            crashprops::crash_check(prop, s, &["C03"], plan, budget, &mut report);
+        }
+        "C04" => {
+            let s = suites::crash_suites(thorough);
+            let plan = crashprops::CrashPlan { nest: if thorough { 2 } else { 1 }, reopen_cycles: if thorough { 2 } else { 1 }, sector_tear: false, layout: false };
+            crashprops::crash_check(prop, s, &["C04"], plan, budget, &mut report);
+        }
+        "C05" => {
+            let s = suites::crash_suites(thorough);
+            let plan = crashprops::CrashPlan { nest: 0, reopen_cycles: 0, sector_tear: false, layout: false };
+            crashprops::crash_check(prop, s, &["C05"], plan, budget, &mut report);
         }
         "C06" => c06::run(tier, &mut report),
         "C16" => {
